@@ -1754,3 +1754,43 @@ def rule_openmisc(text):
             apps.append(_app(rname, text, mm.start(), mm.end(), new, why))
             text = text[:mm.start()] + new + text[mm.end():]
     return text, apps
+
+
+def rule_sig_shard(text):
+    apps = []
+    for pat, rep, why in ((r"&\s*Arc\s*<\s*Statistics\s*>", "&Statistics", "Arc dropped"),):
+        while True:
+            mm = re.search(pat, text)
+            if not mm:
+                break
+            apps.append(_app("R-handle", text, mm.start(), mm.end(), rep, why))
+            text = text[:mm.start()] + rep + text[mm.end():]
+    return text, apps
+
+
+def rule_shardmisc(text):
+    """shard-queue one-offs (write_buffer.rs)"""
+    apps = []
+    ws = r"\s*"
+    table = [
+        (r"let" + ws + r"entry_size" + ws + r"=" + ws + r"entries" + ws + r"\.iter\(\)" + ws + r"\.map\(\|entry\|" + ws + r"entry\.record\.calculate_size\(\)\)" + ws + r"\.sum::<usize>\(\);", "let entry_size = sum_sizes_arr(&entries);", "R-sum", "shim: the summed record sizes (statistics only)"),
+        (r"let" + ws + r"size" + ws + r"=" + ws + r"entries" + ws + r"\.iter\(\)" + ws + r"\.map\(\|entry\|" + ws + r"entry\.record\.calculate_size\(\)\)" + ws + r"\.sum\(\);", "let size = sum_sizes_vec(&entries);", "R-sum", "shim: the summed record sizes (statistics only)"),
+        (r"let" + ws + r"entries:" + ws + r"Vec<_>" + ws + r"=" + ws + r"buffer\.drain\(\.\.\)\.collect\(\);", "let entries = buffer.drain_all();", "R-drainall", "shim: a full drain collected = all queued entries in order, the queue left empty"),
+        (r"for" + ws + r"entry" + ws + r"in" + ws + r"entries\.into_iter\(\)\.rev\(\)" + ws + r"\{", "let mut entries_q_ = RevQueue::new(entries); while let Some(entry) = entries_q_.pop_back() {", "R-revvec", "shim: by-value reverse iteration of a Vec = popping its elements back to front"),
+        (r"for" + ws + r"entry" + ws + r"in" + ws + r"entries\.into_iter\(\)" + ws + r"\{", "for entry in entries {", "R-intoiter", "`for x in v.into_iter()` = `for x in v`"),
+        (r"debug_assert(_eq)?!\([^;]*\);", "", "R-dbg", "dropped: a debug-only assertion"),
+        (r"&self\.sharded_buffers\[(\w+)\]", r"&self.sharded_buffers[\1]", "R-ws", "unchanged"),
+    ]
+    for pat, rep, rname, why in table:
+        n = 0
+        while n < 8:
+            n += 1
+            mm = re.search(pat, text)
+            if not mm:
+                break
+            new = mm.expand(rep)
+            if new == text[mm.start():mm.end()]:
+                break
+            apps.append(_app(rname, text, mm.start(), mm.end(), new, why))
+            text = text[:mm.start()] + new + text[mm.end():]
+    return text, apps
